@@ -54,7 +54,7 @@ func buildRig() *rig {
 	}()
 	vi, err := probe.Vinstr()
 	if err != nil {
-		common.Broken("%v", err)
+		broken("%v", err)
 	}
 	modflag := os.Getenv("VERIF_MODFLAG")
 	out := filepath.Join(probe.ScratchRoot(), "instr")
@@ -62,14 +62,14 @@ func buildRig() *rig {
 	env := append(probe.GoEnv(), strings.TrimSpace("GOFLAGS=-mod=mod "+modflag))
 	args := append([]string{"-dir", common.Root, "-out", out, "-nosync", "-maprange", "-stats", statsFile}, generatorPkgs...)
 	if o, err := probe.Run(common.Root, env, vi, args...); err != nil {
-		common.Broken("vinstr on the generator packages failed: %v\n%s", err, o)
+		broken("vinstr on the generator packages failed: %v\n%s", err, o)
 	}
 	b, err := os.ReadFile(statsFile)
 	if err != nil || json.Unmarshal(b, &r.stats) != nil {
-		common.Broken("cannot read vinstr stats: %v", err)
+		broken("cannot read vinstr stats: %v", err)
 	}
 	if len(r.stats.MapSites) == 0 {
-		common.Broken("vinstr found no range-over-map site in the generator packages")
+		broken("vinstr found no range-over-map site in the generator packages")
 	}
 	r.instrDriver = filepath.Join(probe.ScratchRoot(), "gendriver-instr")
 	bargs := []string{"build"}
@@ -78,13 +78,13 @@ func buildRig() *rig {
 	}
 	bargs = append(bargs, "-overlay", filepath.Join(out, "overlay.json"), "-o", r.instrDriver, "./cmd/gendriver")
 	if o, err := probe.Run(common.Root, env, "go", bargs...); err != nil {
-		common.Broken("building the instrumented generator failed: %v\n%s", err, o)
+		broken("building the instrumented generator failed: %v\n%s", err, o)
 	}
 	// the instrumented surface: count `go` statements and name the function around every site
 	var ov struct{ Replace map[string]string }
 	ob, _ := os.ReadFile(filepath.Join(out, "overlay.json"))
 	if json.Unmarshal(ob, &ov) != nil || len(ov.Replace) == 0 {
-		common.Broken("cannot read overlay.json")
+		broken("cannot read overlay.json")
 	}
 	type fn struct {
 		name       string
@@ -95,7 +95,7 @@ func buildRig() *rig {
 	for orig := range ov.Replace {
 		f, err := parser.ParseFile(fset, orig, nil, 0)
 		if err != nil {
-			common.Broken("parse %s: %v", orig, err)
+			broken("parse %s: %v", orig, err)
 		}
 		ast.Inspect(f, func(n ast.Node) bool {
 			if _, ok := n.(*ast.GoStmt); ok {
@@ -142,7 +142,7 @@ func buildRig() *rig {
 		}
 	}
 	if err := <-plainErr; err != nil {
-		common.Broken("%v", err)
+		broken("%v", err)
 	}
 	return r
 }
@@ -364,4 +364,10 @@ func clip(ls []string, n int) []string {
 		return append(append([]string{}, ls[:n]...), fmt.Sprintf("... (%d more lines)", len(ls)-n))
 	}
 	return ls
+}
+
+// broken removes the scratch directory before reporting broken machinery (exit 2).
+func broken(format string, a ...any) {
+	probe.Cleanup()
+	common.Broken(format, a...)
 }
